@@ -7,7 +7,7 @@ of all tracked preferences are set before anything loads, then set_mathml(curren
 commands since it, and the getter.  E3 schedules: all interleavings of 2-3 sessions in real threads at API-call
 granularity under the executor's controlled scheduler; each thread's observations must equal its solo run."""
 import itertools, json, os, re, subprocess
-from common import Run, norm_ids, is_ok, is_err, is_panic, val, short, MachineryError
+from common import Run, norm_ids, is_ok, is_err, is_panic, val, short, MachineryError, load_known
 import terms, mcx
 from terms import mi, mn, mo, mtext, row, el
 
@@ -30,7 +30,7 @@ def kitchen_sink():
 
 
 EXPRS = [
-    terms.doc(row(mi("a"), mo("⊕"), mi("b"), mo("≅"), mi("ℵ"))),                                     # characters only in unicode-full.yaml
+    terms.doc(row(mi("a"), mo("⊕"), mi("b"), mo("≅"), mi("ℵ"), mo("+"), mi("ℋ"), mo("+"), mn("⅓"))),      # characters only in unicode-full.yaml (speech: en/es/sv; braille: Nemeth/UEB/Vietnam)
     terms.doc(row(mn("12"), mo(","), mn("34"), mo("+"), mn("1"), mo("."), mn("234"), mo(","), mn("5"), mo("+"), mn("3.5"))),   # parsed differently per locale
     terms.doc(kitchen_sink()),                                                                          # one of every construct
     terms.doc(row(el("mfrac", mn("7"), mn("3"), intent="binomial($n,"), mo("+"), el("msup", mi("x"), mn("2")))),             # ill-formed intent
@@ -470,14 +470,19 @@ def main(tier):
     groups = {}
     for tag, h, pos, key, klass, ob in mismatches:
         pk = (opname(OPS[h[pos]]), tuple(klass[1]), tuple(h[max(0, pos - 2):pos]))
-        groups.setdefault(pk, []).append((tag, h, pos, key, ob))
+        groups.setdefault(pk, []).append((tag, h, pos, key, ob, klass))
     run.count("mismatching_observations", len(mismatches))
     budget = 40 if tier == "quick" else 300
+    known_keys = set(load_known("C10"))
+    unstable = []
     for pk, lst in sorted(groups.items(), key=lambda x: len(x[1][0][1])):
         lst.sort(key=lambda x: x[2])
+        # the key of the un-minimised witness (model class + canonical probes, all already computed)
+        tag0, h0, pos0, key0, ob0, klass0 = lst[0]
+        vk0 = violation_key(OPS[h0[pos0]], klass0, need)
         finals = []
-        for tag, h, pos, key, ob in lst[:3]:
-            if budget <= 0:
+        for tag, h, pos, key, ob, _kl in lst[:3]:
+            if budget <= 0 or (vk0 in known_keys and finals):
                 break
             budget -= 1
             suf = minimise(mc, h, pos, key)
@@ -485,7 +490,7 @@ def main(tier):
             last = got[-1]
             ref = work_refs_direct(mc, [last[1]])[last[1]]
             if ref == last[3]:
-                continue            # did not reproduce from scratch even with the full prefix: reported below as unstable
+                continue            # did not reproduce from scratch even with the full prefix
             pr = {}
             if last[2][3]:
                 pr = work_refs_direct(mc, list(last[2][3]))
@@ -493,15 +498,35 @@ def main(tier):
             what = (f"call history [{', '.join(opname(OPS[i]) for i in suf)}]: the last call returned {short(last[3], 140)} but a fresh session with the same "
                     f"preferences and expression returns {short(ref, 140)}")
             finals.append((vk, what, suf))
+        if not finals and budget <= 0:
+            # minimisation budget used up: NEVER drop a mismatch - report the un-minimised witness (finish() re-confirms it from scratch)
+            hh = h0[:pos0 + 1]
+            what = (f"call history [{', '.join(opname(OPS[i]) for i in hh[-12:])}] (last 12 of {len(hh)} calls): the last call returned {short(ob0, 140)} but a fresh "
+                    f"session with the same preferences and expression returns {short(need[key0], 140)}")
+            finals.append((vk0, what, hh))
+            run.count("unminimised_mismatch_groups")
         if not finals:
-            run.notes.append(f"mismatch group {pk} ({len(lst)} observations) did not reproduce from scratch")
+            unstable.append(f"{pk} ({len(lst)} observations)")
             run.count("unreproduced_mismatch_groups")
             continue
         for vk, what, suf in finals:
             run.violation(vk, what, {"kind": "history", "ops": suf})
-        for _ in lst[len(finals):]:
-            run.violation(finals[0][0], finals[0][1], {"kind": "history", "ops": finals[0][2]})
+        fkeys = {f[0]: f for f in finals}
+        for tag, h, pos, key, ob, kl in lst[len(finals):]:
+            vk = violation_key(OPS[h[pos]], kl, need)
+            if vk in fkeys:
+                run.violation(vk, fkeys[vk][1], {"kind": "history", "ops": fkeys[vk][2]})
+            else:
+                # same coarse group but a different class: keep it apart, with its own (un-minimised) witness
+                hh = h[:pos + 1]
+                run.violation(vk, f"call history [{', '.join(opname(OPS[i]) for i in hh[-12:])}] (last 12 of {len(hh)} calls): the last call returned {short(ob, 140)} but a "
+                                  f"fresh session with the same preferences and expression returns {short(need[key], 140)}", {"kind": "history", "ops": hh})
     mc.close()
+    if unstable:
+        # an observation that differed from its reference inside a session but not when the same calls are replayed from scratch:
+        # the harness does not own some source of nondeterminism - a machinery error, never a verdict
+        print("MACHINERY-ERROR property=C10: mismatches that do not replay: " + "; ".join(unstable[:5]))
+        return 2
     run.counters["phase_s_minimise"] = round(run.elapsed(), 1)
     # E3
     two, three = script_tuples(tier)
